@@ -1495,7 +1495,9 @@ class GroupBy:
 
             arr_len = lengths.pop()
 
-            could_be_non_reduce = arr_len == (len(self) if mask is None else mask.sum())
+            # rows actually handed to func: rows with a null key (and masked rows) are in no group
+            n_rows_in = sum(len(sub_arr) for sub_arr in array_splits[0])
+            could_be_non_reduce = arr_len == n_rows_in
             could_be_fixed_length = arr_len % len(group_index) == 0
             if could_be_non_reduce and could_be_fixed_length:
                 # very unlikely for large data
